@@ -50,3 +50,12 @@ def judge(case, impl, model):
     finding = C.region_finding(model, FINDINGS) if pfail and corr else None
     return {'corr': corr, 'pfail': pfail, 'finding': finding, 'nontrivial': positional,
             'tag': f"{case['x']['kind']}/{case['x']['access'][0]}/{'pos' if positional else 'kw'}/{out}", 'why': why}
+
+
+def twins(case):
+    """amplified run: primed twins of call-layer cases (one def executed twice with other annotations, number twins: _call_common.twins)"""
+    return C.twins(case)
+
+
+import _checker_common as _K
+export_state, import_state = _K.export_state, _K.import_state      # the name table travels with replays / amplified runs
